@@ -241,3 +241,20 @@ claim("C08", "proof",
       "seed and a copy of the script reach the engine / the trajectory is C04's seam obligation; independence from other live "
       "engine objects does not hold (known finding of C10: one native simulation per process).",
       "deductive: effect (frame) analysis over the symbolic interpretation of clang AST + SMT; Lean 4 lemma", "DESIGN.md 3/C08")
+
+claim("C16", "other",
+      "Bounded in the grid shape, unbounded in the values: for every grid of a stated list (1x1x1, 2x1x1, 3x1x1, 1x2x1, 2x2x1, "
+      "1x1x3; thorough adds 4x1x1, 2x1x2, 1x2x2), every environment pattern, two chemostat patterns and EVERY index map in "
+      "{-1..n-1}^n (valid or not; one path each), the real coarsegrain.py is executed by the path engine with symbolic cell "
+      "volume, amounts, trajectory data and unit systems, and compared with an independent statement computed from coordinates: "
+      "the map is accepted iff valid by the documented rules; number of groups; group volume = members x cell volume (SI); group "
+      "environment; edges = exactly the pairs of groups sharing a face, no self-loop, no duplicate; contact surface = shared faces "
+      "x face area; distance^2 = squared distance of member centroids x edge^2 (ghost cube root); group amount = sum of member "
+      "amounts (SI), group chemostated iff any member; un-coarse-graining: dropped cells zero, every member gets value/|group| "
+      "(so totals are preserved), units, times and system kept. Identity-map simulation = plain simulation on the real "
+      "deterministic engine for 3 grids (concrete, tolerance 1e-9).",
+      "This is a bounded stand-in in the shape/map dimension, not a proof for all grids: the functions index lists of objects by map "
+      "entries and de-duplicate edges by list membership, which the generic-iteration rules cannot abstract. Counted as bounded "
+      "in the evidence. Fixed in this round: maps dropping cells of two different environments were rejected.",
+      "deductive over values (symbolic execution of real source + SMT) for exhaustively enumerated small shapes and index maps: bounded stand-in",
+      "DESIGN.md 3/C16")
